@@ -13,6 +13,8 @@ PROP_UNITS = {
     'C06': ['timectl'],
     'C02': ['position'],
     'C11': ['draws'],
+    'C20': ['csp'],
+    'C12': ['tt'],
 }
 
 
@@ -39,6 +41,35 @@ def build_unit(name, workdir, save=True):
         with open(os.path.join(d, 'extraction.json'), 'w') as f:
             json.dump(U.manifest(), f, indent=1)
     return m, U, cfile
+
+
+def mmode_file(U, m, g, base_c, workdir):
+    """C file for a mode-M group: replaced functions become stubs generated from their contracts, the function
+    under contract gets a generated enforcement harness (tools/mmode.py)."""
+    import mmode
+    protos = {f.cname: f.proto for f in U.funcs}
+    for cn, pr in getattr(U, 'stubs', []):
+        protos[cn] = pr
+    text = base_c
+    stubs = []
+    for r in g.replace:
+        if r not in protos:
+            raise ExtractError('mode M: unknown function %s' % r)
+        pr = protos[r]
+        if r in [f.cname for f in U.funcs]:
+            # rename the extracted definition
+            old = '\n' + pr + '\n{'
+            if text.count(old) != 1:
+                raise ExtractError('mode M: definition of %s not found exactly once' % r)
+            text = text.replace(old, '\n' + pr.replace(r + '(', r + '__impl(', 1) + '\n{')
+        stubs.append(mmode.stub(pr, m.CONTRACTS[r], r))
+    text += '\n/* ---- mode M stubs (generated from the contracts) ---- */\n' + '\n'.join(stubs)
+    if g.enforce:
+        text += '\n/* ---- mode M enforcement harness (generated from the contract) ---- */\n' + mmode.harness(protos[g.enforce], m.CONTRACTS[g.enforce], g.harness, pre=g.m_pre)
+    path = os.path.join(workdir, '%s.%s.c' % (U.name, re.sub(r'\W', '_', g.name)))
+    with open(path, 'w') as fh:
+        fh.write(text)
+    return path
 
 
 def scan_assumptions(ctext):
@@ -125,7 +156,11 @@ def run_property(prop, tier, seed, workdir, evid_path, t0, only):
                     run_gs.append(g)
             print('[%s] unit %s: %d groups (%d skipped in %s tier), %d functions extracted from %d files' %
                   (prop, un, len(run_gs), len(gs) - len(run_gs), tier, len(U.funcs), len(U.files)))
-            res = prove.prove_all(lambda g: cfile, run_gs, workdir, jobs=int(os.environ.get('VERIF_JOBS', '16')))
+            base_c = open(cfile).read()
+            files = {}
+            for g in run_gs:
+                files[g.name] = mmode_file(U, m, g, base_c, workdir) if g.mode == 'M' else cfile
+            res = prove.prove_all(lambda g: files.get(g.name.split('[')[0], cfile), run_gs, workdir, jobs=int(os.environ.get('VERIF_JOBS', '16')))
             for r in res:
                 r['unit'] = un
             all_results += res
@@ -221,7 +256,7 @@ def write_evidence(path, prop, tier, seed, t0, results, unit_info, assumptions, 
             'trusted_base': trusted,
             'samples': samples,
             'groups': [{'group': r['unit'] + '.' + r['group'], 'harness': r['harness'], 'function_under_contract': r['enforce'],
-                        'callees_replaced_by_contract': r['replace'], 'backend': r['backend'], 'obligations': r['props'],
+                        'callees_replaced_by_contract': r['replace'], 'backend': r['backend'], 'mode': r.get('mode', 'dfcc'), 'obligations': r['props'],
                         'discharged': r['ok'], 'status': r['status'], 'seconds': r['secs'], 'reason': r['reason'][:300],
                         'loop_contract_obligations': r['loop_props']} for r in main],
             'canaries': [{'group': r['unit'] + '.' + r['group'], 'failed_as_required': r['status'] == 'failed'} for r in canaries],
